@@ -9,8 +9,8 @@ ASSUME = ["per-kind predicates are written from tokenizer.txt and the statement;
 
 
 # the same check interpreted by Miri: the token-kind transmute in the lexer would be UB for an invalid discriminant
-MIRI = {"quick": ["--maxlen", "2", "--random", "1600", "--mutants", "160"],
-        "thorough": ["--maxlen", "3", "--random", "24000", "--mutants", "1600"], "shards": 16}
+MIRI = {"quick": ["--maxlen", "1", "--random", "640", "--mutants", "16", "--corpusfiles", "1"],
+        "thorough": ["--maxlen", "2", "--random", "8000", "--mutants", "320", "--corpusfiles", "2"], "shards": 16}
 
 
 def run(tier, seed):
